@@ -687,7 +687,7 @@ fn tier_large(rep: &mut Report, thorough: bool) {
                     Val::U((i as u64) * 257),
                     Val::S((i as i64 - (*n as i64) / 2) * 129),
                     Val::A(format!("k{:05}", i).into_bytes()),
-                    Val::A(format!("{}", i % 500).into_bytes()),
+                    Val::A(format!("v{}", i % 1500).into_bytes()), // >1024 distinct values, then duplicates
                     Val::C((i % 3) as u16, (i * 7) as u32),
                 ];
                 if v == 0 {
@@ -766,11 +766,741 @@ fn c02(args: &Args) -> ! {
     rep.finish(args)
 }
 
+
+// ======================================================================== C03
+use jubako as jbk;
+use jbk::reader::{CompareTrait, Range};
+
+struct Ordered<C: CompareTrait>(C, bool);
+impl<C: CompareTrait> CompareTrait for Ordered<C> {
+    fn ordered(&self) -> bool {
+        self.1
+    }
+    fn compare_entry(&self, idx: jbk::EntryIdx) -> jbk::Result<std::cmp::Ordering> {
+        self.0.compare_entry(idx)
+    }
+}
+
+#[derive(Clone, Debug, PartialEq, Eq, PartialOrd, Ord)]
+enum Key {
+    A(Vec<u8>),
+    U(u64),
+    S(i64),
+    AU(Vec<u8>, u64),
+}
+
+impl Key {
+    fn vals(&self) -> Vec<Val> {
+        match self {
+            Key::A(a) => vec![Val::A(a.clone())],
+            Key::U(u) => vec![Val::U(*u)],
+            Key::S(s) => vec![Val::S(*s)],
+            Key::AU(a, u) => vec![Val::A(a.clone()), Val::U(*u)],
+        }
+    }
+    fn probe(&self) -> (Vec<String>, Vec<jbk::Value>) {
+        match self {
+            Key::A(a) => (vec!["p0".into()], vec![jbk::Value::Array(a.as_slice().into())]),
+            Key::U(u) => (vec!["p0".into()], vec![jbk::Value::Unsigned(*u)]),
+            Key::S(s) => (vec!["p0".into()], vec![jbk::Value::Signed(*s)]),
+            Key::AU(a, u) => (
+                vec!["p0".into(), "p1".into()],
+                vec![jbk::Value::Array(a.as_slice().into()), jbk::Value::Unsigned(*u)],
+            ),
+        }
+    }
+    fn json(&self) -> J {
+        match self {
+            Key::A(a) => json!({"a": jbkmc::hex(a)}),
+            Key::U(u) => json!({"u": u.to_string()}),
+            Key::S(s) => json!({"s": s.to_string()}),
+            Key::AU(a, u) => json!({"a": jbkmc::hex(a), "u": u.to_string()}),
+        }
+    }
+    fn from_json(j: &J) -> Key {
+        let a = j.get("a").map(|x| jbkmc::unhex(x.as_str().unwrap()));
+        let u = j.get("u").map(|x| x.as_str().unwrap().parse::<u64>().unwrap());
+        let s = j.get("s").map(|x| x.as_str().unwrap().parse::<i64>().unwrap());
+        match (a, u, s) {
+            (Some(a), Some(u), _) => Key::AU(a, u),
+            (Some(a), None, _) => Key::A(a),
+            (None, Some(u), _) => Key::U(u),
+            (None, None, Some(s)) => Key::S(s),
+            _ => panic!("bad key json"),
+        }
+    }
+}
+
+#[derive(Clone)]
+struct SortCase {
+    /// keys in insertion order
+    keys: Vec<Key>,
+    prefix: usize,
+    store: StoreKind,
+    /// probes (present and absent)
+    probes: Vec<Key>,
+    /// windows to check; None = all windows
+    windows: Option<Vec<(u32, u32)>>,
+}
+
+impl SortCase {
+    fn json(&self) -> J {
+        json!({"engine":"schemamc","sub":"c03","keys": self.keys.iter().map(|k| k.json()).collect::<Vec<_>>(),
+               "prefix": self.prefix, "store": format!("{:?}", self.store),
+               "probes": self.probes.iter().map(|k| k.json()).collect::<Vec<_>>(),
+               "windows": self.windows})
+    }
+    fn brief(&self) -> J {
+        if self.keys.len() <= 8 { self.json() } else {
+            json!({"keys": format!("{} structured keys, first {:?}", self.keys.len(), self.keys[0]), "prefix": self.prefix, "store": format!("{:?}", self.store)})
+        }
+    }
+    fn from_json(j: &J) -> SortCase {
+        SortCase {
+            keys: j["keys"].as_array().unwrap().iter().map(Key::from_json).collect(),
+            prefix: j["prefix"].as_u64().unwrap() as usize,
+            store: if j["store"] == "Plain" { StoreKind::Plain } else { StoreKind::Indexed },
+            probes: j["probes"].as_array().unwrap().iter().map(Key::from_json).collect(),
+            windows: j["windows"].as_array().map(|a| a.iter().map(|w| (w[0].as_u64().unwrap() as u32, w[1].as_u64().unwrap() as u32)).collect()),
+        }
+    }
+}
+
+/// Returns (outcome, violation key/what)
+fn check_sorted(case: &SortCase) -> (String, Option<(String, String)>) {
+    let n = case.keys.len();
+    let schema = SchemaSpec {
+        stores: vec![case.store],
+        common: match &case.keys[0] {
+            Key::A(_) => vec![PropSpec::A { prefix: case.prefix, store: 0 }, PropSpec::U],
+            Key::U(_) => vec![PropSpec::U, PropSpec::U],
+            Key::S(_) => vec![PropSpec::S, PropSpec::U],
+            Key::AU(..) => vec![PropSpec::A { prefix: case.prefix, store: 0 }, PropSpec::U, PropSpec::U],
+        },
+        variants: vec![],
+        sort: Some(match &case.keys[0] {
+            Key::AU(..) => vec![0, 1],
+            _ => vec![0],
+        }),
+    };
+    let mut sorted: Vec<(Key, usize)> = case.keys.iter().cloned().zip(0..).collect();
+    sorted.sort();
+    let dup = sorted.windows(2).any(|w| w[0].0 == w[1].0);
+    let mut rank = vec![0u64; n];
+    for (r, (_, k)) in sorted.iter().enumerate() {
+        rank[*k] = r as u64;
+    }
+    let windows: Vec<(u32, u32)> = match &case.windows {
+        Some(w) => w.clone(),
+        None => {
+            let mut w = vec![];
+            for o in 0..=n as u32 {
+                for c in 0..=(n as u32 - o) {
+                    w.push((o, c));
+                }
+            }
+            w
+        }
+    };
+    let spec = DirSpec {
+        schema,
+        entries: case
+            .keys
+            .iter()
+            .enumerate()
+            .map(|(i, k)| {
+                let mut vals = k.vals();
+                vals.push(Val::U(i as u64)); // identifies the spec entry
+                EntrySpec { variant: None, vals }
+            })
+            .collect(),
+        indexes: windows
+            .iter()
+            .map(|(o, c)| IndexSpec { name: format!("w{o}_{c}"), offset: *o, count: *c })
+            .collect(),
+    };
+    let built = match build(&spec) {
+        Ok(b) => b,
+        Err(e) => {
+            let msg = match &e { BuildErr::Err(m) | BuildErr::Panic(m) => m.clone() };
+            if dup {
+                return ("creation-fails:duplicate-sort-keys".into(), None);
+            }
+            return (
+                "violation".into(),
+                Some((format!("C03 creation failed {}", jbkmc::panic_site(&msg)), format!("creation of a sorted store with distinct keys failed: {msg}"))),
+            );
+        }
+    };
+    if dup {
+        return ("created-with-duplicate-keys".into(), None);
+    }
+    let fp = |k: usize| rank[k];
+    // (1) plain byte/numeric order + every value as written
+    if let Err((k, w)) = read_and_compare(&spec, &built, &fp) {
+        return ("violation".into(), Some((format!("C03 order/readback: {k}"), w)));
+    }
+    // handles
+    for k in 0..n {
+        if built.bounds[k] as u64 != rank[k] {
+            return ("violation".into(), Some(("C03 handle position".into(), format!("handle of entry {k} reports {} but the entry is at {}", built.bounds[k], rank[k]))));
+        }
+    }
+    let r = jbkmc::catch(|| -> Result<(), (String, String)> {
+        let od = open(built.bytes.clone()).map_err(|e| ("unreadable".to_string(), e))?;
+        for (o, c) in &windows {
+            let oi = od.index(&format!("w{o}_{c}")).map_err(|e| ("unreadable".to_string(), e))?.unwrap();
+            // (1b) the reader's own comparison between neighbours
+            for i in 0..c.saturating_sub(1) {
+                let next = &sorted[(*o + i + 1) as usize].0;
+                let (names, values) = next.probe();
+                let cmp = oi.builder.new_multiple_property_compare(names, values);
+                let ord = cmp
+                    .compare_entry(jbk::EntryIdx::from(*o + i))
+                    .map_err(|e| ("compare error".to_string(), format!("{e}")))?;
+                if ord != std::cmp::Ordering::Less {
+                    return Err(("not ordered for the reader".into(), format!("window ({o},{c}): entry {i} compares {ord:?} to the key of entry {}", i + 1)));
+                }
+            }
+            // (2) every probe, both modes
+            for probe in &case.probes {
+                let expect: Option<u32> = sorted[*o as usize..(*o + *c) as usize]
+                    .iter()
+                    .position(|(k, _)| k == probe)
+                    .map(|p| p as u32);
+                let mut got = [None, None];
+                for (m, ordered) in [true, false].iter().enumerate() {
+                    let (names, values) = probe.probe();
+                    let cmp = Ordered(oi.builder.new_multiple_property_compare(names, values), *ordered);
+                    got[m] = oi
+                        .index
+                        .find(&cmp)
+                        .map_err(|e| ("find error".to_string(), format!("{e}")))?
+                        .map(|i| i.into_u32());
+                }
+                if got[0] != got[1] {
+                    return Err((
+                        "search modes disagree".into(),
+                        format!("window ({o},{c}) probe {}: binary search {:?}, linear scan {:?}, expected {:?}", probe.json(), got[0], got[1], expect),
+                    ));
+                }
+                if got[0] != expect {
+                    return Err((
+                        if expect.is_some() { "lookup misses a written key".into() } else { "lookup finds an absent key".into() },
+                        format!("window ({o},{c}) probe {}: found {:?}, expected {:?}", probe.json(), got[0], expect),
+                    ));
+                }
+                // the entry found carries the key
+                if let Some(i) = got[0] {
+                    let e = oi.entry(i).map_err(|e| ("unreadable entry".to_string(), e))?.unwrap();
+                    let want = expected_entry(&spec, sorted[(*o + i) as usize].1, &fp);
+                    if e != want {
+                        return Err(("found entry differs".into(), format!("window ({o},{c}) probe {}", probe.json())));
+                    }
+                }
+            }
+        }
+        Ok(())
+    });
+    match r {
+        Ok(Ok(())) => ("ok".into(), None),
+        Ok(Err((k, w))) => ("violation".into(), Some((format!("C03 {k}"), w))),
+        Err(p) => ("violation".into(), Some((format!("C03 reader-panic {}", jbkmc::panic_site(&p)), p))),
+    }
+}
+
+fn sort_result(case: &SortCase, tier: &str) -> CaseResult {
+    let (outcome, v) = check_sorted(case);
+    CaseResult {
+        id: format!("{tier}:{}", case.json()),
+        nontrivial: case.keys.len() >= 2 && outcome == "ok",
+        outcome,
+        violation: v.map(|(k, w)| (k, w, case.json())),
+        sample: json!({"tier": tier, "case": case.brief()}),
+    }
+}
+
+fn orders(n: usize) -> Vec<Vec<usize>> {
+    // ascending, descending, rotated by one
+    let asc: Vec<usize> = (0..n).collect();
+    let mut desc = asc.clone();
+    desc.reverse();
+    let mut rot = asc.clone();
+    rot.rotate_left(1.min(n));
+    let mut v = vec![asc, desc, rot];
+    v.dedup();
+    v.sort();
+    v.dedup();
+    v
+}
+
+/// find() in isolation on a mock comparator
+struct MockCmp<'a> {
+    seq: &'a [i32],
+    probe: i32,
+    ordered: bool,
+}
+impl CompareTrait for MockCmp<'_> {
+    fn ordered(&self) -> bool {
+        self.ordered
+    }
+    fn compare_entry(&self, idx: jbk::EntryIdx) -> jbk::Result<std::cmp::Ordering> {
+        Ok(self.seq[idx.into_u32() as usize].cmp(&self.probe))
+    }
+}
+
+fn c03_find_isolated(rep: &mut Report, thorough: bool) {
+    let maxlen = if thorough { 7 } else { 6 };
+    let mut cases = 0u64;
+    let mut nontrivial = 0u64;
+    for len in 0..=maxlen {
+        for seq in multisets(5, len) {
+            let seq: Vec<i32> = seq.iter().map(|&x| x as i32).collect();
+            for o in 0..=len {
+                for c in 0..=(len - o) {
+                    let range = jbk::EntryRange::new_from_size(jbk::EntryIdx::from(o as u32), jbk::EntryCount::from(c as u32));
+                    for probe in -1..=5 {
+                        cases += 1;
+                        if c >= 2 {
+                            nontrivial += 1;
+                        }
+                        let window = &seq[o..o + c];
+                        let present = window.contains(&probe);
+                        let run = |ordered: bool| {
+                            let cmp = MockCmp { seq: &seq, probe, ordered };
+                            jbkmc::catch(|| range.find(&cmp).map(|r| r.map(|i| i.into_u32() as usize)))
+                        };
+                        let res = [run(true), run(false)];
+                        let case = json!({"engine":"schemamc","sub":"c03","find_isolated":{"seq":seq,"offset":o,"count":c,"probe":probe}});
+                        for (m, r) in res.iter().enumerate() {
+                            let mode = if m == 0 { "binary" } else { "linear" };
+                            match r {
+                                Ok(Ok(Some(i))) => {
+                                    if *i >= c || window[*i] != probe {
+                                        rep.violation(&format!("C03 find({mode}) returns a wrong index"), &format!("seq {seq:?} window ({o},{c}) probe {probe}: {mode} search returned {i}"), case.clone());
+                                    }
+                                }
+                                Ok(Ok(None)) => {
+                                    if present {
+                                        rep.violation(&format!("C03 find({mode}) misses a present key"), &format!("seq {seq:?} window ({o},{c}) probe {probe}: {mode} search returned None"), case.clone());
+                                    }
+                                }
+                                Ok(Err(e)) => rep.violation(&format!("C03 find({mode}) error"), &format!("{e}"), case.clone()),
+                                Err(p) => rep.violation(&format!("C03 find({mode}) panic {}", jbkmc::panic_site(p)), p, case.clone()),
+                            }
+                        }
+                        if let (Ok(Ok(a)), Ok(Ok(b))) = (&res[0], &res[1]) {
+                            if a.is_some() != b.is_some() {
+                                rep.violation("C03 find modes disagree (isolated)", &format!("seq {seq:?} window ({o},{c}) probe {probe}: binary {a:?} linear {b:?}"), case.clone());
+                            }
+                        }
+                    }
+                }
+            }
+        }
+    }
+    rep.bulk(cases, nontrivial);
+    rep.outcome("find-isolated", cases);
+    rep.sample(json!({"tier":"find-isolated","seq":[0,1,1,3],"offset":1,"count":3,"probe":1}));
+}
+
+fn key_universe() -> Vec<Vec<u8>> {
+    let sym = [0x00u8, 0x61, 0xff];
+    let mut u = vec![vec![]];
+    for len in 1..=3 {
+        for s in sequences(3, len) {
+            u.push(s.iter().map(|&i| sym[i]).collect());
+        }
+    }
+    u
+}
+
+fn c03(args: &Args) -> ! {
+    let mut rep = Report::new(
+        "schemamc",
+        "C03",
+        "sorted stores: every subset (size 1..3 quick / 1..4 thorough) of the 40 byte strings over {00,61,ff} of length<=3 x inline prefix {0,1,2,3} x store {plain,indexed} x insertion order {asc,desc,rotated}; integer keys: all subsets (size<=3/4) of the boundary alphabets; two-column keys; every window (offset,count) x every probe of the universe x {binary,linear}; find() alone on every non-decreasing sequence over 0..4 of length<=6 x every window x probes -1..5; non-trivial = at least 2 keys (or window count>=2 for find alone)",
+    );
+    if let Some(p) = &args.replay {
+        let j: J = serde_json::from_str(&std::fs::read_to_string(p).expect("replay file")).unwrap();
+        let case = if j.get("case").is_some() { &j["case"] } else { &j };
+        if case.get("find_isolated").is_some() {
+            c03_find_isolated(&mut rep, false);
+        } else {
+            let r = sort_result(&SortCase::from_json(case), "replay");
+            println!("replay outcome: {}", r.outcome);
+            rep.case(Some(&r.id), &r.outcome);
+            if let Some((k, w, c)) = r.violation {
+                println!("  {k}: {w}");
+                rep.violation(&k, &w, c);
+            }
+        }
+        rep.finish(args);
+    }
+    let t = args.thorough();
+    if let Some(n) = args.opt("--large") {
+        // configuration run: large structured sets under the RAYON_NUM_THREADS given by the driver
+        let n: usize = n.parse().unwrap();
+        c03_large(&mut rep, n);
+        rep.finish(args);
+    }
+    c03_find_isolated(&mut rep, t);
+    let uni = key_universe();
+    let maxk = if t { 4 } else { 3 };
+    let mut descs: Vec<SortCase> = vec![];
+    let all_probes: Vec<Key> = uni.iter().map(|k| Key::A(k.clone())).collect();
+    for sub in subsets(uni.len(), 1, maxk) {
+        for prefix in [0usize, 1, 2, 3] {
+            for store in [StoreKind::Plain, StoreKind::Indexed] {
+                for ord in orders(sub.len()) {
+                    descs.push(SortCase {
+                        keys: ord.iter().map(|&i| Key::A(uni[sub[i]].clone())).collect(),
+                        prefix,
+                        store,
+                        probes: vec![],
+                        windows: None,
+                    });
+                }
+            }
+        }
+    }
+    run_cases(&mut rep, &descs, |d| {
+        let mut d = d.clone();
+        d.probes = all_probes.clone();
+        let mut r = sort_result(&d, "array-keys");
+        // keep replays small: only the keys, the probes are the universe
+        r.id = format!("array-keys:{:?}:{}:{:?}", d.keys, d.prefix, d.store);
+        r
+    });
+    // integer keys
+    let ua = uint_alphabet();
+    let sa = sint_alphabet();
+    let mut idescs: Vec<SortCase> = vec![];
+    for sub in subsets(ua.len(), 1, maxk) {
+        for ord in orders(sub.len()) {
+            idescs.push(SortCase {
+                keys: ord.iter().map(|&i| Key::U(ua[sub[i]])).collect(),
+                prefix: 0,
+                store: StoreKind::Plain,
+                probes: ua.iter().map(|&u| Key::U(u)).collect(),
+                windows: None,
+            });
+        }
+    }
+    for sub in subsets(sa.len(), 1, maxk) {
+        for ord in orders(sub.len()) {
+            idescs.push(SortCase {
+                keys: ord.iter().map(|&i| Key::S(sa[sub[i]])).collect(),
+                prefix: 0,
+                store: StoreKind::Plain,
+                probes: sa.iter().map(|&u| Key::S(u)).collect(),
+                windows: None,
+            });
+        }
+    }
+    // two-column keys (array, uint): subsets of a 3x3 grid
+    let grid: Vec<Key> = [b"".to_vec(), b"a".to_vec(), b"ab".to_vec()]
+        .iter()
+        .flat_map(|a| [0u64, 1, 256].iter().map(move |u| Key::AU(a.clone(), *u)))
+        .collect();
+    for sub in subsets(grid.len(), 1, maxk) {
+        for prefix in [0usize, 1] {
+            for store in [StoreKind::Plain, StoreKind::Indexed] {
+                for ord in orders(sub.len()) {
+                    idescs.push(SortCase {
+                        keys: ord.iter().map(|&i| grid[sub[i]].clone()).collect(),
+                        prefix,
+                        store,
+                        probes: grid.clone(),
+                        windows: None,
+                    });
+                }
+            }
+        }
+    }
+    // duplicate keys: creation is expected to fail (recorded, not a violation)
+    idescs.push(SortCase { keys: vec![Key::U(5), Key::U(5)], prefix: 0, store: StoreKind::Plain, probes: vec![Key::U(5)], windows: None });
+    run_cases(&mut rep, &idescs, |d| sort_result(d, "int/two-column keys"));
+    rep.finish(args)
+}
+
+fn c03_large(rep: &mut Report, n: usize) {
+    let threads = std::env::var("RAYON_NUM_THREADS").unwrap_or_else(|_| "default".into());
+    rep.extra.insert("rayon_threads".into(), json!(threads));
+    let mut descs: Vec<SortCase> = vec![];
+    let shapes: Vec<(&str, Box<dyn Fn(usize) -> Vec<u8>>)> = vec![
+        ("counter", Box::new(|i| format!("{:06}", i).into_bytes())),
+        ("shared-long-prefix", Box::new(|i| { let mut v = vec![b'p'; 40]; v.extend(format!("{:05}", i).into_bytes()); v })),
+        ("binary-be", Box::new(|i| (i as u32).to_be_bytes().to_vec())),
+        ("nul-tails", Box::new(|i| { let mut v = vec![b'k'; 1 + i % 3]; v.extend(vec![0u8; i / 3 % 50]); v.extend((i as u16).to_le_bytes()); v })),
+    ];
+    for (_name, f) in &shapes {
+        for prefix in [0usize, 2, 31] {
+            for store in [StoreKind::Plain, StoreKind::Indexed] {
+                if store == StoreKind::Indexed && n > 3000 {
+                    continue; // the indexed store's add_value is quadratic
+                }
+                for order in 0..3 {
+                    let mut keys: Vec<Key> = (0..n).map(|i| Key::A(f(i))).collect();
+                    keys.sort();
+                    keys.dedup();
+                    match order {
+                        0 => {}
+                        1 => keys.reverse(),
+                        _ => {
+                            // deterministic shuffle (stride permutation)
+                            let m = keys.len();
+                            let stride = (m / 2 + 1) | 1;
+                            let mut g = stride;
+                            while gcd(g, m) != 1 { g += 2; }
+                            keys = (0..m).map(|i| keys[(i * g) % m].clone()).collect();
+                        }
+                    }
+                    let m = keys.len() as u32;
+                    let mut probes: Vec<Key> = vec![];
+                    for (i, k) in keys.iter().enumerate() {
+                        if i % 7 == 0 || i < 20 || i + 20 > keys.len() {
+                            probes.push(k.clone());
+                            if let Key::A(a) = k {
+                                let mut b = a.clone();
+                                b.push(0);
+                                probes.push(Key::A(b));
+                                let mut c = a.clone();
+                                c.pop();
+                                probes.push(Key::A(c));
+                            }
+                        }
+                    }
+                    descs.push(SortCase {
+                        keys,
+                        prefix,
+                        store,
+                        probes,
+                        windows: Some(vec![(0, m), (m / 3, m / 2), (m - 1, 1), (1, m - 1)]),
+                    });
+                }
+            }
+        }
+    }
+    run_cases(rep, &descs, |d| {
+        let mut r = sort_result(d, "large");
+        r.id = format!("large:{}:{:?}:{}:{:?}", d.keys.len(), d.keys[0], d.prefix, d.store);
+        if let Some(v) = &mut r.violation {
+            v.2 = json!({"engine":"schemamc","sub":"c03","large": d.keys.len(), "first_key": d.keys[0].json(), "prefix": d.prefix, "store": format!("{:?}", d.store)});
+        }
+        r
+    });
+}
+
+fn gcd(a: usize, b: usize) -> usize {
+    if b == 0 { a } else { gcd(b, a % b) }
+}
+
+// ======================================================================== C15
+#[derive(Clone)]
+struct RefCase {
+    n: usize,
+    /// f[k] = Some(t): entry k references entry t
+    f: Vec<Option<usize>>,
+    /// insertion order (spec indices)
+    order: Vec<usize>,
+    sorted: bool,
+    extra_col: bool,
+    /// key of spec entry k
+    keys: Vec<Vec<u8>>,
+}
+
+impl RefCase {
+    fn json(&self) -> J {
+        if self.n <= 8 {
+            json!({"engine":"schemamc","sub":"c15","n":self.n,"f":self.f,"order":self.order,"sorted":self.sorted,"extra_col":self.extra_col,
+               "keys": self.keys.iter().map(|k| jbkmc::hex(k)).collect::<Vec<_>>()})
+        } else {
+            json!({"engine":"schemamc","sub":"c15","n":self.n,"structured":true,"sorted":self.sorted,"extra_col":self.extra_col,
+                   "f_head": &self.f[..8], "order_head": &self.order[..8]})
+        }
+    }
+    fn from_json(j: &J) -> RefCase {
+        RefCase {
+            n: j["n"].as_u64().unwrap() as usize,
+            f: j["f"].as_array().unwrap().iter().map(|x| x.as_u64().map(|v| v as usize)).collect(),
+            order: j["order"].as_array().unwrap().iter().map(|x| x.as_u64().unwrap() as usize).collect(),
+            sorted: j["sorted"].as_bool().unwrap(),
+            extra_col: j["extra_col"].as_bool().unwrap(),
+            keys: j["keys"].as_array().unwrap().iter().map(|x| jbkmc::unhex(x.as_str().unwrap())).collect(),
+        }
+    }
+}
+
+fn check_refs(case: &RefCase) -> (String, Option<(String, String)>) {
+    let n = case.n;
+    let mut common = vec![PropSpec::A { prefix: 1, store: 0 }];
+    if case.extra_col {
+        common.push(PropSpec::U);
+    }
+    common.push(PropSpec::U); // the reference (or a plain number when the entry references nothing)
+    let schema = SchemaSpec {
+        stores: vec![StoreKind::Plain],
+        common,
+        variants: vec![],
+        sort: if case.sorted { Some(vec![0]) } else { None },
+    };
+    let entries: Vec<EntrySpec> = (0..n)
+        .map(|k| {
+            let mut vals = vec![Val::A(case.keys[k].clone())];
+            if case.extra_col {
+                vals.push(Val::U(1000 + 300 * k as u64));
+            }
+            vals.push(match case.f[k] {
+                Some(t) => Val::Ref(t),
+                None => Val::UW(n as u64 + 7),
+            });
+            EntrySpec { variant: None, vals }
+        })
+        .collect();
+    let spec = DirSpec { schema, entries, indexes: simple_index(n) };
+    // final position
+    let mut pos = vec![0u64; n];
+    if case.sorted {
+        let mut idx: Vec<usize> = (0..n).collect();
+        idx.sort_by(|a, b| case.keys[*a].cmp(&case.keys[*b]));
+        for (r, k) in idx.iter().enumerate() {
+            pos[*k] = r as u64;
+        }
+    } else {
+        for (p, k) in case.order.iter().enumerate() {
+            pos[*k] = p as u64;
+        }
+    }
+    let built = match build_with_order(&spec, Some(&case.order)) {
+        Ok(b) => b,
+        Err(e) => {
+            let msg = match &e { BuildErr::Err(m) | BuildErr::Panic(m) => m.clone() };
+            return ("violation".into(), Some((format!("C15 creation failed {}", jbkmc::panic_site(&msg)), msg)));
+        }
+    };
+    let fp = |k: usize| pos[k];
+    if let Err((k, w)) = read_and_compare(&spec, &built, &fp) {
+        let key = if k.starts_with("altered uint") { "C15 reference does not resolve to the final position".to_string() } else { format!("C15 readback: {k}") };
+        return ("violation".into(), Some((key, w)));
+    }
+    for k in 0..n {
+        if built.bounds[k] as u64 != pos[k] {
+            return (
+                "violation".into(),
+                Some(("C15 handle does not report the final position".into(), format!("handle returned by add_entry for entry {k} reports {}, final position is {}", built.bounds[k], pos[k]))),
+            );
+        }
+    }
+    ("ok".into(), None)
+}
+
+fn ref_result(case: &RefCase, tier: &str) -> CaseResult {
+    let (outcome, v) = check_refs(case);
+    let moved = case.sorted && case.order.iter().enumerate().any(|(p, k)| {
+        // does sorting move something?
+        let mut idx: Vec<usize> = (0..case.n).collect();
+        idx.sort_by(|a, b| case.keys[*a].cmp(&case.keys[*b]));
+        idx[p] != *k
+    });
+    CaseResult {
+        id: format!("{tier}:{}", case.json()),
+        nontrivial: case.f.iter().any(|x| x.is_some()) && (moved || !case.sorted) && outcome == "ok",
+        outcome,
+        violation: v.map(|(k, w)| (k, w, case.json())),
+        sample: json!({"tier": tier, "case": case.json()}),
+    }
+}
+
+fn c15(args: &Args) -> ! {
+    let mut rep = Report::new(
+        "schemamc",
+        "C15",
+        "every reference function f: entries -> entries+none ((n+1)^n graphs) x every insertion order (n!) x {sorted,unsorted} x {reference column alone, next to another column}, n in 1..4 (quick) / 1..5 (thorough), plus structured graphs (successor chain, everyone->last, reversal, self) at n in {32,300,1000,20000} crossing the 1-byte position boundary and rayon's sequential cut-offs; non-trivial = at least one reference and (unsorted or the sort moves an entry)",
+    );
+    if let Some(p) = &args.replay {
+        let j: J = serde_json::from_str(&std::fs::read_to_string(p).expect("replay file")).unwrap();
+        let case = if j.get("case").is_some() { &j["case"] } else { &j };
+        if case.get("structured").is_some() {
+            eprintln!("structured case: re-run the tier");
+            std::process::exit(2);
+        }
+        let r = ref_result(&RefCase::from_json(case), "replay");
+        println!("replay outcome: {}", r.outcome);
+        rep.case(Some(&r.id), &r.outcome);
+        if let Some((k, w, c)) = r.violation {
+            println!("  {k}: {w}");
+            rep.violation(&k, &w, c);
+        }
+        rep.finish(args);
+    }
+    let t = args.thorough();
+    if let Some(sz) = args.opt("--large") {
+        let threads = std::env::var("RAYON_NUM_THREADS").unwrap_or_else(|_| "default".into());
+        rep.extra.insert("rayon_threads".into(), json!(threads));
+        let sizes: Vec<usize> = sz.split(',').map(|x| x.parse().unwrap()).collect();
+        let mut descs = vec![];
+        for n in sizes {
+            // key arrangements: where insertion position k ends up after the sort
+            let arrangements: Vec<Vec<Vec<u8>>> = vec![
+                (0..n).map(|k| format!("{:07}", (k * 7919) % n).into_bytes()).collect(), // stride permutation
+                (0..n).map(|k| format!("{:07}", n - 1 - k).into_bytes()).collect(),       // reversal: first inserted sorts last
+                (0..n).map(|k| format!("{:07}", k).into_bytes()).collect(),               // already sorted
+            ];
+            let m = 10.min(n);
+            let graphs: Vec<Vec<Option<usize>>> = vec![
+                (0..n).map(|k| Some((k + 1) % n)).collect(),
+                (0..n).map(|_| Some(n - 1)).collect(),
+                (0..n).map(|k| Some(n - 1 - k)).collect(),
+                (0..n).map(|k| if k % 3 == 0 { Some(k) } else if k % 3 == 1 { None } else { Some(k / 2) }).collect(),
+                (0..n).map(|k| Some(k % m)).collect(),           // few targets, inserted first
+                (0..n).map(|k| Some(n - m + k % m)).collect(),   // few targets, inserted last
+            ];
+            for keys in &arrangements {
+                for f in &graphs {
+                    for sorted in [true, false] {
+                        for rev in [false, true] {
+                            let mut order: Vec<usize> = (0..n).collect();
+                            if rev { order.reverse(); }
+                            descs.push(RefCase { n, f: f.clone(), order, sorted, extra_col: n % 2 == 0, keys: keys.clone() });
+                        }
+                    }
+                }
+            }
+        }
+        run_cases(&mut rep, &descs, |d| {
+            let mut r = ref_result(d, "large");
+            r.id = format!("large:{}:{:?}:{}:{}:{:?}", d.n, &d.f[..d.f.len().min(4)], d.sorted, d.order[0], d.keys[0]);
+            r
+        });
+        rep.finish(args);
+    }
+    let maxn = if t { 5 } else { 4 };
+    let mut descs = vec![];
+    for n in 1..=maxn {
+        let keys: Vec<Vec<u8>> = (0..n).map(|k| vec![b'a' + k as u8, b'x']).collect();
+        for fsel in sequences(n + 1, n) {
+            let f: Vec<Option<usize>> = fsel.iter().map(|&x| if x == n { None } else { Some(x) }).collect();
+            for order in permutations(n) {
+                for sorted in [true, false] {
+                    for extra_col in [false, true] {
+                        descs.push(RefCase { n, f: f.clone(), order: order.clone(), sorted, extra_col, keys: keys.clone() });
+                    }
+                }
+            }
+        }
+    }
+    run_cases(&mut rep, &descs, |d| ref_result(d, "graphs"));
+    rep.finish(args)
+}
+
 fn main() {
     jbkmc::install_quiet_panic_hook();
     let args = Args::parse();
     match args.sub.as_str() {
         "c02" => c02(&args),
+        "c03" => c03(&args),
+        "c15" => c15(&args),
         other => {
             eprintln!("unknown subcommand {other}");
             std::process::exit(2)
